@@ -204,7 +204,7 @@ pub fn gen_read_case(rng: &mut Rng, prop: &str) -> ReadCase {
         ops.insert(2, ROp::Interval { c: 0, s: len / 2, e: len });
     }
     let chaos = rng.chance(1, 2);
-    ReadCase {
+    let mut rc = ReadCase {
         file,
         ops,
         read: if chaos {
@@ -212,13 +212,19 @@ pub fn gen_read_case(rng: &mut Rng, prop: &str) -> ReadCase {
                 short_pm: *rng.pick(&[100u16, 500, 900]),
                 eintr_pm: *rng.pick(&[0u16, 100, 400]),
                 seed: rng.next_u64(),
+                hard: None,
             }
         } else {
             ReadFaults::default()
         },
         cached: rng.chance(1, 2),
         sweep: false,
+    };
+    // F10: one hard read/seek error inside one operation of the history (1 case in 4)
+    if rng.chance(1, 4) && !rc.ops.is_empty() {
+        rc.read.hard = Some((rng.below(rc.ops.len() as u64) as u32, rng.below(10) as u32));
     }
+    rc
 }
 
 fn bits_eq(a: &[f32], b: &[f32]) -> bool {
@@ -317,6 +323,36 @@ pub struct HistStats {
     pub ops: u64,
     pub reopens: u64,
     pub blocks_hint: u64,
+    /// F10: shared I/O statistics of the SimRead under the reader, and (operation index, n-th call) to arm
+    pub io: Option<Arc<std::sync::Mutex<crate::sink::ReadStats>>>,
+    pub arm: Option<(u32, u32)>,
+    /// operations that failed while the injected hard error fired inside them (accepted)
+    pub tolerated: u64,
+}
+
+impl HistStats {
+    fn hard_errors(&self) -> u64 {
+        match &self.io {
+            Some(io) => io.lock().unwrap_or_else(|e| e.into_inner()).hard_errors,
+            None => 0,
+        }
+    }
+    fn arm_if_due(&self, k: usize) {
+        if let (Some(io), Some((at, nth))) = (&self.io, self.arm) {
+            if at as usize == k {
+                io.lock().unwrap_or_else(|e| e.into_inner()).arm = Some(nth as u64);
+            }
+        }
+    }
+    /// An operation returned an I/O error: accepted (and counted) iff the injected hard error fired inside it.
+    fn tolerate(&mut self, before: u64) -> bool {
+        if self.hard_errors() > before {
+            self.tolerated += 1;
+            true
+        } else {
+            false
+        }
+    }
 }
 
 macro_rules! history_runner {
@@ -330,8 +366,10 @@ macro_rules! history_runner {
         ) -> Result<(), (String, String)> {
             let conv = $conv;
             let mut slot: Option<$Reader<R>> = None;
-            for (k, op) in ops.iter().enumerate() {
+            'ops: for (k, op) in ops.iter().enumerate() {
                 hs.ops += 1;
+                hs.arm_if_due(k);
+                let hard_before = hs.hard_errors();
                 let fail = |class: &str, msg: String| Err((class.to_string(), format!("op {} {:?}: {}", k, op, msg)));
                 match op {
                     ROp::Interval { c, s, e } | ROp::Partial { c, s, e, .. } | ROp::Move { c, s, e } => {
@@ -344,14 +382,31 @@ macro_rules! history_runner {
                             let r = std::mem::replace(&mut slot, None).unwrap_or(reader);
                             let mut it = match r.get_interval_move(&ch.name, *s, *e) {
                                 Ok(i) => i,
-                                Err(e) => return fail("read-error", format!("{}", e)),
+                                Err(e) => {
+                                    // the reader went into the call and is gone with the error
+                                    if hs.tolerate(hard_before) {
+                                        return Ok(());
+                                    }
+                                    return fail("read-error", format!("{}", e));
+                                }
                             };
                             let mut v = vec![];
+                            let mut broken = false;
                             for x in it.by_ref() {
                                 match x {
                                     Ok(x) => v.push(conv(x)),
-                                    Err(e) => return fail("read-error", format!("{}", e)),
+                                    Err(e) => {
+                                        if hs.tolerate(hard_before) {
+                                            broken = true;
+                                            break;
+                                        }
+                                        return fail("read-error", format!("{}", e));
+                                    }
                                 }
+                            }
+                            if broken {
+                                reader = it.into();
+                                continue 'ops;
                             }
                             reader = it.into();
                             v
@@ -361,7 +416,12 @@ macro_rules! history_runner {
                             }
                             let it = match reader.get_interval(&ch.name, *s, *e) {
                                 Ok(i) => i,
-                                Err(e) => return fail("read-error", format!("{}", e)),
+                                Err(e) => {
+                                    if hs.tolerate(hard_before) {
+                                        continue 'ops;
+                                    }
+                                    return fail("read-error", format!("{}", e));
+                                }
                             };
                             let mut v = vec![];
                             for x in it {
@@ -372,7 +432,12 @@ macro_rules! history_runner {
                                 }
                                 match x {
                                     Ok(x) => v.push(conv(x)),
-                                    Err(e) => return fail("read-error", format!("{}", e)),
+                                    Err(e) => {
+                                        if hs.tolerate(hard_before) {
+                                            continue 'ops;
+                                        }
+                                        return fail("read-error", format!("{}", e));
+                                    }
                                 }
                             }
                             v
@@ -425,7 +490,13 @@ macro_rules! history_runner {
                             reader = r;
                         }
                         let ch = &model.chroms[*c];
-                        if let Err(m) = values_check(&mut reader, ch, *s, *e) {
+                        if let Err((io, m)) = values_check(&mut reader, ch, *s, *e) {
+                            if io {
+                                if hs.tolerate(hard_before) {
+                                    continue 'ops;
+                                }
+                                return fail("read-error", m);
+                            }
                             return fail("wrong-answer", m);
                         }
                     }
@@ -454,7 +525,12 @@ macro_rules! history_runner {
                                     return fail("wrong-answer", format!("zoom {} {} {}", red, ch.name, m));
                                 }
                             }
-                            Err(e) => return fail("read-error", format!("zoom {}: {}", red, e)),
+                            Err(e) => {
+                                if hs.tolerate(hard_before) {
+                                    continue 'ops;
+                                }
+                                return fail("read-error", format!("zoom {}: {}", red, e));
+                            }
                         }
                     }
                     ROp::Reopen => {
@@ -467,7 +543,12 @@ macro_rules! history_runner {
                                 // the original stays alive (independent cursor); continue on the reopened one
                                 slot = Some(r);
                             }
-                            Err(e) => return fail("read-error", format!("reopen: {}", e)),
+                            Err(e) => {
+                                if hs.tolerate(hard_before) {
+                                    continue 'ops;
+                                }
+                                return fail("read-error", format!("reopen: {}", e));
+                            }
                         }
                     }
                     ROp::Summary => {
@@ -486,7 +567,12 @@ macro_rules! history_runner {
                                         return fail("wrong-answer", format!("summary {:?} expected {:?}", sm, want));
                                     }
                                 }
-                                Err(e) => return fail("read-error", format!("summary: {}", e)),
+                                Err(e) => {
+                                    if hs.tolerate(hard_before) {
+                                        continue 'ops;
+                                    }
+                                    return fail("read-error", format!("summary: {}", e));
+                                }
                             }
                         }
                     }
@@ -498,10 +584,11 @@ macro_rules! history_runner {
 }
 
 trait ValuesCheck {
-    fn values_check_impl(&mut self, ch: &Chrom, s: u32, e: u32) -> Result<(), String>;
+    /// Err((true, _)) = the call returned an error, Err((false, _)) = it returned a wrong answer
+    fn values_check_impl(&mut self, ch: &Chrom, s: u32, e: u32) -> Result<(), (bool, String)>;
 }
 impl<R: BBIFileRead> ValuesCheck for BigWigRead<R> {
-    fn values_check_impl(&mut self, ch: &Chrom, s: u32, e: u32) -> Result<(), String> {
+    fn values_check_impl(&mut self, ch: &Chrom, s: u32, e: u32) -> Result<(), (bool, String)> {
         match self.values(&ch.name, s, e) {
             Ok(v) => {
                 let want = expect_values(&ch.items, s, e);
@@ -509,27 +596,30 @@ impl<R: BBIFileRead> ValuesCheck for BigWigRead<R> {
                     Ok(())
                 } else {
                     let k = v.iter().zip(&want).position(|(a, b)| a.to_bits() != b.to_bits() && !(a.is_nan() && b.is_nan()));
-                    Err(format!(
-                        "values({}, {}, {}): {} values, expected {}; first difference at index {:?}",
-                        ch.name,
-                        s,
-                        e,
-                        v.len(),
-                        want.len(),
-                        k
+                    Err((
+                        false,
+                        format!(
+                            "values({}, {}, {}): {} values, expected {}; first difference at index {:?}",
+                            ch.name,
+                            s,
+                            e,
+                            v.len(),
+                            want.len(),
+                            k
+                        ),
                     ))
                 }
             }
-            Err(e) => Err(format!("values: {}", e)),
+            Err(e) => Err((true, format!("values: {}", e))),
         }
     }
 }
 impl<R: BBIFileRead> ValuesCheck for BigBedRead<R> {
-    fn values_check_impl(&mut self, _ch: &Chrom, _s: u32, _e: u32) -> Result<(), String> {
+    fn values_check_impl(&mut self, _ch: &Chrom, _s: u32, _e: u32) -> Result<(), (bool, String)> {
         Ok(())
     }
 }
-fn values_check<T: ValuesCheck>(r: &mut T, ch: &Chrom, s: u32, e: u32) -> Result<(), String> {
+fn values_check<T: ValuesCheck>(r: &mut T, ch: &Chrom, s: u32, e: u32) -> Result<(), (bool, String)> {
     r.values_check_impl(ch, s, e)
 }
 
@@ -567,13 +657,16 @@ pub fn run_history_on(
     cached: bool,
     st: &mut RunStats,
 ) -> Verdict {
+    let rd = SimRead::new(image, read);
+    let stats = rd.stats.clone();
     let mut hs = HistStats {
         ops: 0,
         reopens: 0,
         blocks_hint: 0,
+        io: Some(stats.clone()),
+        arm: read.hard,
+        tolerated: 0,
     };
-    let rd = SimRead::new(image, read);
-    let stats = rd.stats.clone();
     let res = std::panic::catch_unwind(std::panic::AssertUnwindSafe(|| -> Result<(), (String, String)> {
         match model.kind {
             Kind::Wig => {
@@ -602,11 +695,17 @@ pub fn run_history_on(
         if s.eintr_reads > 0 {
             *st.faults.entry("F4_eintr_read".into()).or_insert(0) += s.eintr_reads;
         }
+        if s.hard_errors > 0 {
+            *st.faults.entry("F10_hard_read_error".into()).or_insert(0) += s.hard_errors;
+        }
         *st.counters.entry("reader_read_calls".into()).or_insert(0) += s.reads;
         *st.counters.entry("reader_seek_calls".into()).or_insert(0) += s.seeks;
     }
     *st.counters.entry("history_ops".into()).or_insert(0) += hs.ops;
     *st.counters.entry("reopens".into()).or_insert(0) += hs.reopens;
+    if hs.tolerated > 0 {
+        *st.counters.entry("ops_failed_under_injected_read_error".into()).or_insert(0) += hs.tolerated;
+    }
     *st.counters
         .entry(if cached { "cached_reader_runs".into() } else { "plain_reader_runs".into() })
         .or_insert(0) += 1;
@@ -884,6 +983,7 @@ pub fn gen_c05(rng: &mut Rng, idx: u64) -> ReadCase {
                 short_pm: 300,
                 eintr_pm: 100,
                 seed: rng.next_u64(),
+                hard: None,
             }
         } else {
             ReadFaults::default()
@@ -1109,7 +1209,7 @@ pub fn gen_c10(rng: &mut Rng) -> EncCase {
         });
     }
     ops.push(ROp::Summary);
-    EncCase {
+    let mut ec = EncCase {
         spec,
         ops,
         read: if rng.chance(1, 2) {
@@ -1117,12 +1217,17 @@ pub fn gen_c10(rng: &mut Rng) -> EncCase {
                 short_pm: *rng.pick(&[100u16, 600]),
                 eintr_pm: *rng.pick(&[0u16, 200]),
                 seed: rng.next_u64(),
+                hard: None,
             }
         } else {
             ReadFaults::default()
         },
         cached: rng.chance(1, 2),
+    };
+    if rng.chance(1, 4) {
+        ec.read.hard = Some((rng.below(ec.ops.len() as u64) as u32, rng.below(10) as u32));
     }
+    ec
 }
 
 pub fn run_c10(ec: &EncCase) -> RunReport {
